@@ -7,12 +7,17 @@ import (
 	"sync"
 	"testing"
 
+	seccomp "github.com/elastic/go-seccomp-bpf"
 	"github.com/elastic/go-seccomp-bpf/arch"
 	"golang.org/x/net/bpf"
 	"pgregory.net/rapid"
 
+	"verif/harness/internal/cbpf"
 	"verif/harness/internal/ev"
+	"verif/harness/internal/gen"
 	"verif/harness/internal/labelvm"
+	"verif/harness/internal/model"
+	"verif/harness/internal/oracle"
 	"verif/harness/internal/spec"
 )
 
@@ -247,4 +252,151 @@ func checkC12Conc(raw json.RawMessage) (ev.Result, error) {
 
 func TestC12Concurrent(t *testing.T) {
 	ev.Prop(t, "C12", "concurrent", drawC12Conc, checkC12Conc)
+}
+
+// ---- C01 / C05: independent policies compiled by several goroutines at once ----
+
+type concCompileCase struct {
+	Policies []spec.Policy `json:"policies"` // one per goroutine, of generated (different) architectures
+	K        int           `json:"k"`
+	Seed     uint64        `json:"seed"`
+}
+
+func drawConcCompile(t *rapid.T) concCompileCase {
+	c := concCompileCase{K: rapid.IntRange(1, 4).Draw(t, "k"), Seed: rapid.Uint64().Draw(t, "seed")}
+	g := rapid.IntRange(2, 8).Draw(t, "goroutines")
+	for i := 0; i < g; i++ {
+		prof := []gen.Profile{gen.Small, gen.Small, gen.NamesOnly, gen.CondHeavy, gen.Long}[rapid.IntRange(0, 4).Draw(t, "profile")]
+		c.Policies = append(c.Policies, gen.Policy(t, drawArch(t), gen.Opts{Profile: prof, MaxInsns: 1500}))
+	}
+	return c
+}
+
+// c05ClosedReturnSet: every value the program can return is the default action, a group action or ERRNO(ENOSYS) (x86_64).
+func c05ClosedReturnSet(p *spec.Policy, raw []cbpf.Raw) error {
+	allowed := map[uint32]bool{model.Ret(p.Default): true}
+	for _, g := range p.Groups {
+		allowed[model.Ret(g.Action)] = true
+	}
+	if p.Arch == "x86_64" {
+		allowed[oracle.Const("SECCOMP_RET_ERRNO")|oracle.Const("ENOSYS")] = true
+	}
+	vals, nonConst := cbpf.Returns(raw)
+	if nonConst {
+		return fmt.Errorf("program contains a return that is not RET K")
+	}
+	for _, v := range vals {
+		if !allowed[v] {
+			return fmt.Errorf("program can return %#x, which is neither the default action, nor a group action, nor ERRNO(ENOSYS) on x86_64", v)
+		}
+	}
+	return nil
+}
+
+// checkConcCompile: what a goroutine gets for its own policy while others compile theirs is judged by the property's own
+// oracle (C01: the reference decisions for sampled events; C05: verifier and closed return set) whenever it differs from the
+// program the same policy compiles to when nothing else runs. (That it is the identical program is C13's statement.)
+func checkConcCompile(prop string) func(json.RawMessage) (ev.Result, error) {
+	return func(raw json.RawMessage) (ev.Result, error) {
+		var c concCompileCase
+		if err := json.Unmarshal(raw, &c); err != nil {
+			return ev.Result{}, ev.Inconclusivef("bad case: %v", err)
+		}
+		if len(c.Policies) < 2 || c.K < 1 || c.K > 16 {
+			return ev.Result{}, ev.Inconclusivef("ill-formed case")
+		}
+		type outcome struct {
+			insts []bpf.Instruction
+			err   error
+			pan   any
+		}
+		n := len(c.Policies)
+		want := make([]outcome, n)
+		values := make([][]*seccomp.Policy, n)
+		archs := map[string]bool{}
+		for i := range c.Policies {
+			cp, err, pan := compilePolicy(&c.Policies[i])
+			if pan != nil {
+				return ev.Result{}, ev.Inconclusivef("policy %d panics the compiler even when compiled alone", i)
+			}
+			if err == nil {
+				want[i].insts = cp.insts
+				archs[c.Policies[i].Arch] = true
+			}
+			want[i].err = err
+			for k := 0; k < c.K; k++ {
+				values[i] = append(values[i], c.Policies[i].ToSeccomp())
+			}
+		}
+		got := make([][]outcome, n)
+		var start, done sync.WaitGroup
+		start.Add(1)
+		for i := 0; i < n; i++ {
+			done.Add(1)
+			go func(i int) {
+				defer done.Done()
+				start.Wait()
+				for k := 0; k < c.K; k++ {
+					var o outcome
+					func() {
+						defer func() { o.pan = recover() }()
+						o.insts, o.err = values[i][k].Assemble()
+					}()
+					got[i] = append(got[i], o)
+				}
+			}(i)
+		}
+		start.Done()
+		done.Wait()
+		res := ev.Result{Classes: []string{"independent-policies-compiled-concurrently"}, Sub: n * c.K}
+		for i := 0; i < n; i++ {
+			p := &c.Policies[i]
+			for k, o := range got[i] {
+				where := fmt.Sprintf("policy %d of %d (%s, %d groups), compiled for the %d. time by its own goroutine while %d other goroutines compile policies of their own", i+1, n, p.Arch, len(p.Groups), k+1, n-1)
+				if o.pan != nil {
+					return res, fmt.Errorf("%s: Assemble panicked (%v); compiled alone it does not", where, o.pan)
+				}
+				if (o.err != nil) != (want[i].err != nil) {
+					return res, fmt.Errorf("%s: error %v, compiled alone %v", where, o.err, want[i].err)
+				}
+				if o.err != nil || reflect.DeepEqual(o.insts, want[i].insts) {
+					continue
+				}
+				cp := &compiled{insts: o.insts}
+				if err := cp.encode(); err != nil {
+					return res, fmt.Errorf("%s: the program does not encode: %v", where, err)
+				}
+				switch prop {
+				case "C05":
+					if len(cp.raw) <= cbpf.MaxInsns {
+						if err := cbpf.Verify(cp.raw); err != nil {
+							return res, fmt.Errorf("%s: the program would be refused by the kernel's verifier: %v", where, err)
+						}
+					}
+					if err := c05ClosedReturnSet(p, cp.raw); err != nil {
+						return res, fmt.Errorf("%s: %v", where, err)
+					}
+				default:
+					evs := gen.Events(p, c.Seed, gen.EventOpts{Own: true, PerNr: 2, MaxNrs: 80, Consts: cp.consts})
+					if err := runEvents(p, cp, evs, hostOrder(), nil); err != nil {
+						return res, fmt.Errorf("%s: %v", where, err)
+					}
+				}
+				res.Classes = append(res.Classes, "concurrent-program-differs-from-sequential-but-is-right")
+			}
+		}
+		if len(archs) >= 2 {
+			res.NonTrivial = true
+			res.Classes = append(res.Classes, "concurrent-compilations-for-different-architectures")
+		}
+		return res, nil
+	}
+}
+
+func TestC01Concurrent(t *testing.T) {
+	ev.Prop(t, "C01", "concurrent", drawConcCompile, checkConcCompile("C01"))
+}
+
+func TestC05Concurrent(t *testing.T) {
+	ev.Prop(t, "C05", "concurrent", drawConcCompile, checkConcCompile("C05"))
 }
